@@ -139,6 +139,7 @@ func (c Commands) MarshalBinary() ([]byte, error) {
 // UnmarshalBinary decodes a slice of bytes into a slice of commands.
 func (c *Commands) UnmarshalBinary(uplink bool, data []byte) error {
 	var i int
+	*c = nil
 
 	for i < len(data) {
 		var cmd Command
